@@ -652,6 +652,27 @@ static void f22_render (uint64_t idx) {
 static int f22_ninputs (uint64_t idx) { return 4; }
 static pinput f22_input (uint64_t idx, int i) { pinput p = {i & 1, i & 2 ? -2 : 5, -1, 0, 0}; return p; }
 
+/* =============================== F23: an alloca address that reaches a callee after arithmetic (compressed pointer), as an argument or through memory; the callee reads a store that is overwritten after the call =============================== */
+static const char *F23_L[][2] = { /* launder in the caller, undo in the callee (%s: destination, source) */
+  {"  ursh key, fp, 3\n", "  lsh t, k, 3\n"}, {"  rsh key, fp, 3\n", "  lsh t, k, 3\n"}, {"  udiv key, fp, 8\n", "  mul t, k, 8\n"}, {"  div key, fp, 8\n", "  mul t, k, 8\n"},
+  {"  neg key, fp\n", "  neg t, k\n"}, {"  mul key, fp, -1\n", "  mul t, k, -1\n"}, {"  xor key, fp, 0x5a5a\n", "  xor t, k, 0x5a5a\n"}, {"  add key, fp, 1000\n", "  sub t, k, 1000\n"},
+  {"  lsh key, fp, 1\n", "  ursh t, k, 1\n"}, {"  ursh key, fp, 4\n  or key, key, 0\n", "  lsh t, k, 4\n"}, {"  mov key, fp\n", "  mov t, k\n"}};
+#define NF23L 11
+static uint64_t f23_count (int th) { return NF23L * 2 * 2 * 2; }
+static void f23_render (uint64_t idx) {
+  int two = idx % 2; idx /= 2; int ty = idx % 2; idx /= 2; int via = idx % 2; int l = (int) (idx / 2); const char *T = ty ? "i32" : "i64";
+  ptl = 0; S ("%s", PRELUDE);
+  S ("p_rd: proto i64, i64:k\nrd: func i64, i64:k\n  local i64:t, i64:v\n"); if (via) S ("  mov k, i64:(k)\n"); S ("%s  mov v, %s:(t)\n  ret v\nendfunc\n", F23_L[l][1], T);
+  S ("f: func i64, i64:a, i64:b, p:m, p:q, d:x, d:y\n  local i64:r, i64:r0, i64:r1, i64:fp, i64:key, i64:fa\n  alloca fp, 16\n%s", F23_L[l][0]);
+  if (via) S ("  mov i64:(m), key\n  mov key, m\n");
+  S ("  mov %s:(fp), a\n  mov fa, rd\n  call p_rd, fa, r0, key\n", T);
+  if (two) S ("  mov %s:(fp), b\n  call p_rd, fa, r1, key\n  mul r0, r0, 3\n  add r0, r0, r1\n", T);
+  S ("  mov %s:(fp), 0\n  mov r, %s:(fp)\n  add r, r, r0\n", T, T); if (via) S ("  mov i64:(m), 0\n"); /* the key is an address: not part of the compared memory */
+  S ("  ret r\n"); end_func ();
+}
+static int f23_ninputs (uint64_t idx) { return 2; }
+static pinput f23_input (uint64_t idx, int i) { pinput p = {i ? -5 : 42, 17, -1, 0, 0}; return p; }
+
 int progfam_thorough;
 static const family FAMILIES[] = {
   {"F1a-ext-chains", f1a_count, f1a_render, in_intgrid_n, in_intgrid},
@@ -680,6 +701,7 @@ static const family FAMILIES[] = {
   {"F20-variable-address", f20_count, f20_render, f20_ninputs, f20_input},
   {"F21-inlined-stack-areas", f21_count, f21_render, f21_ninputs, f21_input},
   {"F22-load-availability-across-blocks", f22_count, f22_render, f22_ninputs, f22_input},
+  {"F23-laundered-alloca-address", f23_count, f23_render, f23_ninputs, f23_input},
   /* thorough only, 1.5e8 programs: kept last so that a deadline cuts this family and no other */
   {"F3t-cfg3-full", f3t_count, f3t_render, f3_ninputs, f3_input},
 };
